@@ -134,6 +134,22 @@ def run(facts, res):
     res.instance("T3", "reload_until clears documents and reloads the data index before applying (%s); DataStorage::reload clears the index before listing (%s)" % (ok, idx_ok), b.loc())
     if not (ok and idx_ok):
         res.violation("T3", "reload_until|not-clean-slate", "reload_until does not start from cleared documents / data index", b.loc())
+    rl = facts.body("melda::Melda::reload")
+    if rl is not None:
+        rcfg = cfg_of(rl)
+        clr = {}
+        for bi, t in rl.calls():
+            if t.callee is not None and t.callee.name == "clear" and t.args:
+                for x in walk(arg_term(rl, t, 0, 14)):
+                    if x[0] == "field" and x[2] in ("documents", "deltas"):
+                        clr.setdefault(x[2], []).append(bi)
+        ap = [s.block for s in cg.sites[rl.path] if any(t.path == R.path("applier") or cg.reaches(t, R.path("applier")) for t in s.targets + s.closures)]
+        dsr = [s.block for s in cg.sites[rl.path] if s.callee is not None and s.callee.target() == "datastorage::DataStorage::reload"]
+        ok = bool(ap) and all(k in clr and all(any(rcfg.dominates(c_, a) for c_ in clr[k]) for a in ap) for k in ("documents", "deltas")) and \
+            bool(dsr) and all(any(rcfg.dominates(d_, a) for d_ in dsr) for a in ap)
+        res.instance("T3", "reload (the way back to the latest state) clears documents, block map and data index before applying: %s" % ok, rl.loc())
+        if not ok:
+            res.violation("T3", "reload|not-clean-slate", "reload does not rebuild from cleared documents / block map / data index: a plain reload after time travel would not return to the latest state", rl.loc())
     deleg = False
     for s in cg.sites[b.path]:
         if s.callee is not None and s.callee.target() == "melda::Melda::reload":
